@@ -286,13 +286,13 @@ func runC11CLI(s *scn.Scenario, res *scn.Result) {
 		}
 		struck := map[string]string{}
 		for _, f := range s.FSFaults {
-			struck[f.Path] = f.Kind
+			struck[f.Path] += "," + f.Kind // (two faults may name the same file)
 		}
 		for i := range s.Inputs {
 			p := s.Inputs[i].Path
 			c, orig, ref := got.files[p], string(s.Inputs[i].Src), solo[i].files[p]
 			ok := c == orig || c == ref
-			if !ok && struck[p] == "write-torn" && strings.HasPrefix(ref, c) {
+			if !ok && strings.Contains(struck[p], "write-torn") && strings.HasPrefix(ref, c) {
 				ok = true
 			}
 			if !ok {
